@@ -57,11 +57,13 @@ def main():
         tail = out.strip().splitlines()[-1] if out.strip() else ""
         ran.append(("pytest dali/tests with patch", tail))
         tests_ok = "110 passed" in tail
-        shutil.copy(os.path.join(src, "demo.py"), os.path.join(wt, "seed_demo.py"))
-        rc1, out1 = sh("/venv/bin/python seed_demo.py", cwd=wt, timeout=300)
+        os.makedirs(os.path.join(wt, "SEED"), exist_ok=True)
+        shutil.copy(os.path.join(src, "demo.py"), os.path.join(wt, "SEED", "demo.py"))
+        demo = "PYTHONPATH=%s /venv/bin/python SEED/demo.py" % wt      # dali must resolve to the scratch worktree
+        rc1, out1 = sh(demo, cwd=wt, timeout=300)
         ran.append(("demo with patch", rc1))
         sh("git apply -R %s/patch.diff" % src, cwd=wt)
-        rc0, out0 = sh("/venv/bin/python seed_demo.py", cwd=wt, timeout=300)
+        rc0, out0 = sh(demo, cwd=wt, timeout=300)
         ran.append(("demo without patch", rc0))
         confirmed = tests_ok and rc1 == 1 and rc0 == 0
         print("%s: tests with patch: %s | demo with patch exit %d | demo without patch exit %d -> %s"
